@@ -10,8 +10,21 @@ spec/redis/Pipeline.tla (sessions, split requests, one FIFO per backend node, no
     request bytes, scheduler perturbation at the verifhook points), boundary trace validated by TLC against
     PipelineObs (no error replies allowed: stable cluster);
  4. request contents that could desynchronise the reply stream (CR LF in command names, keys, values; invalid
-    request shapes): exactly one reply each, then the sentinel's PONG.
+    request shapes): exactly one reply each, then the sentinel's PONG;
+ 5. every reply the proxy builds itself (spec/redis/LocalReply.tla): locally answered commands (PING [message], QUIT,
+    SELECT, INFO, TIME, HOTKEY), error replies (unsupported command, invalid request, invalid cursor, disabled in
+    compress mode - the latter built by the backend writer) and forwarded requests, with client-controlled bytes (CR,
+    LF, CR LF + a complete RESP value, NUL, type bytes, quotes) at every position, array and inline form, on a plain
+    and on a compressing processor, pipelined behind pending forwarded requests and in front of a forwarded GET and a
+    PING.  The reply construction is a model step whose output is the sequence of wire lines the client reads
+    (constants ErrText / Echo / HotAs: the broken variants violate OneReplyEach); the exhaustive run of the code's
+    variant prints one pipeline per terminal state = the vectors replayed on the real processor (c01-local), the
+    returned byte stream is cut into values by a strict reply parser: exactly one value per request, the requests
+    around the probe answered with their own values.
+
+Spec modules owned: spec/redis/Pipeline.tla, PipelineGen.tla, LocalReply.tla and their cfg files.
 """
+import concurrent.futures
 import os
 
 import kit
@@ -22,18 +35,44 @@ LEVEL = "model_checking"
 
 def run(ctx):
     ctx.build()
+    # the locally built replies (model, vectors, replay) run beside the pipeline part
+    pool = concurrent.futures.ThreadPoolExecutor(max_workers=3)
+    side = [pool.submit(local_replies, ctx), pool.submit(pipeline_models, ctx), pool.submit(local_variants, ctx)]
+    try:
+        pipelines(ctx)
+    finally:
+        # violations observed on the real code stand over trouble elsewhere: collect everything first
+        errs = []
+        for f in side:
+            try:
+                f.result()
+            except Exception as e:  # noqa: BLE001
+                errs.append(e)
+        pool.shutdown(wait=True)
+    if errs:
+        raise errs[0]
+    ctx.cov["rule"] = ("behaviours = TLC simulation of PipelineGen (seeded), distinct by event sequence, non-trivial = contains a request "
+                       "split over two nodes; random pipelines counted per request; injection cases by name; locally built replies: one "
+                       "case per vector of LocalReply.tla (handler/position x payload class x form x processor x requests ahead), "
+                       "non-trivial = the payload contains CR, LF, NUL, a type byte or a quote")
+
+
+def pipeline_models(ctx):
     ctx.assumptions += [
         "exhaustive model: 2 connections x 2 requests, 2-3 nodes, session queue capacity 1-2 (code: 32)",
         "byte fragmentation is exercised by the random driver and by C10, not by the exhaustive model",
     ]
-    r = ctx.mc("redis", "Pipeline", "MC_Pipeline.cfg" if ctx.thorough else "MC_Pipeline_quick.cfg", workers=8, timeout=1500,
+    r = ctx.mc("redis", "Pipeline", "MC_Pipeline.cfg" if ctx.thorough else "MC_Pipeline_quick.cfg", workers=4, timeout=1500,
                coverage=not ctx.thorough)
     if r.coverage:
         ctx.check_vacuity(r, "Pipeline")
     ctx.mc("redis", "PipelineObs", "MC_PipelineObs.cfg", workers=4, timeout=300)
     # anti-vacuity of ParentOnce: a variant in which a failing child completes the parent at once must complete a
     # split request twice
-    ctx.mc("redis", "Pipeline", "MC_Pipeline_errcompletes.cfg", workers=4, timeout=300, expect_violated=["ParentOnce"], count=False)
+    ctx.mc("redis", "Pipeline", "MC_Pipeline_errcompletes.cfg", workers=1, timeout=300, expect_violated=["ParentOnce"], count=False)
+
+
+def pipelines(ctx):
     # 2. TLC-chosen reply orders
     num = 250 if ctx.thorough else 30
     g = ctx.tlc("redis", "PipelineGen", "Gen_Pipeline.cfg", mode="sim", workers=1, sim_num=num, sim_depth=300,
@@ -86,5 +125,120 @@ def run(ctx):
         ctx.case(key=["bannedpipe", r["case"]], nontrivial=True)
         if not r["ok"]:
             ctx.violation("reply-count/banned-pipe/" + r["case"], "%s: %d replies for %d pipelined requests: %s" % (r["case"], len(r["replies"] or []), r["want"], r["replies"]), r)
-    ctx.cov["rule"] = ("behaviours = TLC simulation of PipelineGen (seeded), distinct by event sequence, non-trivial = contains a request "
-                       "split over two nodes; random pipelines counted per request; injection cases by name")
+
+
+# ---------------------------------------------------------------------------------------------- locally built replies
+
+# classes that must be exercised in every run (prefix of the vector's ctx) and payload classes that must be among them
+LOCAL_STRATA = ["local/ping", "local/quit", "local/select", "local/info", "local/time", "local/hotkey", "error/unsupported/name",
+                "error/unsupported/arg", "error/arity", "error/cursor", "error/banned", "forward/", "stored/hotkey"]
+LOCAL_PAYLOADS = ["crlf", "lf", "cr", "crlf+simple", "nul", "type-first"]
+
+
+def local_variants(ctx):
+    """LocalReply.tla: every broken construction policy violates the property, the windows are reachable."""
+    runs = [("verbatim", ["OneReplyEach"]), ("pairs", ["OneReplyEach"]), ("echoline", ["OneReplyEach"]),
+            ("echoline_inline", ["OneReplyEach"]), ("hotline", ["OneReplyEach"]), ("win_quoted", ["NotW_QuotedInLine"]),
+            ("win_behind", ["NotW_BuiltBehindPending"]), ("win_writer", ["NotW_WriterBuiltLate"]), ("echobulk", None)]
+    if not ctx.thorough:
+        # the quick tier keeps one broken variant per construction policy and the window of the late (backend writer's) reply
+        runs = [x for x in runs if x[0] in ("verbatim", "echoline", "hotline", "win_writer")]
+    for cfg, exp in runs:
+        ctx.mc("redis", "LocalReply", "MC_LocalReply_%s.cfg" % cfg, workers=1, timeout=300, heap="2g", expect_violated=exp, count=False)
+
+
+def local_judge(v, r):
+    """The property predicate on one replayed pipeline: (kind, text) or None. kind: count | mismatch | lost."""
+    vals = r.get("vals") or []
+    n = r["n"]
+    want = r["want"]
+    probes = [i for i, w in enumerate(want) if w == ""]
+    shown = "sent %s, received %s" % (r.get("sent"), r.get("raw"))
+    if r.get("garbage"):
+        return "count", "after %d value(s) the reply stream is not RESP any more: %s; %s" % (len(vals), r["garbage"], shown)
+    if len(vals) > n or (len(vals) == n and r.get("rest")):
+        return "count", "%d requests, %d replies%s; %s" % (n, len(vals), " and more bytes" if r.get("rest") else "", shown)
+    for i, (w, x) in enumerate(zip(want, vals)):
+        if w and w != x:
+            kind = "count" if x in want[i + 1:] or x in want[:i] else "mismatch"
+            return kind, "request %d of %d (%s) was answered with %s, its own reply is %s; %s" % (i + 1, n, v["reqs"][i]["kind"], x, w, shown)
+    if len(vals) < n:
+        if r.get("closed") and v.get("mayclose") and probes and len(vals) > probes[-1]:
+            return None     # QUIT was answered and the connection closed: allowed
+        return "lost", "%d requests, %d replies (%s); %s" % (n, len(vals), "connection closed" if r.get("closed") else "none within the deadline", shown)
+    return None
+
+
+def local_replay(ctx, vecs, tag):
+    vfile = os.path.join(ctx.work, "local-%s.ndjson" % tag)
+    rfile = os.path.join(ctx.work, "local-%s-results.ndjson" % tag)
+    kit.write_ndjson(vfile, vecs)
+    ctx.harness(["c01-local", "-in", vfile, "-out", rfile, "-workers", "4"], timeout=1500)
+    res = {r["id"]: r for r in kit.read_ndjson(rfile)}
+    return [(v, res.get(i + 1)) for i, v in enumerate(vecs)]
+
+
+def local_replies(ctx):
+    r = ctx.mc("redis", "LocalReply", "MC_LocalReply_%s.cfg" % ("thorough" if ctx.thorough else "quick"), workers=2, timeout=1500, heap="3g")
+    vecs = [p for (tag, p) in r.prints if tag == "VEC"]
+    # CR LF first: the plainest evidence leads the list of violations of a signature
+    vecs.sort(key=lambda v: (v["ctx"], not v["payload"].startswith("crlf"), v["payload"], v["proxy"], v["form"], v["pre"]))
+    have = {(v["ctx"], v["payload"]) for v in vecs if v["form"] == "array"}
+    missing = [(s, p) for s in LOCAL_STRATA for p in LOCAL_PAYLOADS if not any(c.startswith(s) and q == p for (c, q) in have)]
+    if missing or len(vecs) < 1000:
+        raise kit.Inconclusive("LocalReply.tla emitted %d vectors, mandatory strata missing: %s" % (len(vecs), missing))
+    pairs = local_replay(ctx, vecs, "vectors")
+    bad = ran = diverge = 0
+    suspects = []
+    seen = set()
+    for v, res in pairs:
+        if res is None or res.get("err"):
+            bad += 1
+            ctx.notes.append("local %s/%s: %s" % (v["ctx"], v["payload"], "no result" if res is None else res["err"]))
+            continue
+        if res.get("short") and res.get("timeout"):
+            continue    # read with the shortened deadline: not a verdict
+        if v["stored"] and not res.get("storedSeen"):
+            ctx.notes.append("local %s/%s: the stored bytes did not show up in the summary before the pipeline" % (v["ctx"], v["payload"]))
+        ran += 1
+        seen.add((v["ctx"], v["payload"]))
+        ctx.case(key=["local", v["ctx"], v["proxy"], v["payload"], v["form"], v["pre"]], nontrivial=v["payload"] != "plain")
+        verdict = local_judge(v, res)
+        if verdict is None:
+            ctx.cov["traces_validated_against_impl"] += 1
+            vals = res.get("vals") or []
+            for i, (who, first) in enumerate(zip(v["who"], v["first"])):
+                if who != "node" and i < len(vals) and vals[i][:1] != first:
+                    diverge += 1
+                    if diverge <= 5:
+                        ctx.notes.append("LocalReply.tla describes the reply of %s %s as '%s', the code answered %s" % (v["ctx"], v["payload"], first, vals[i][:60]))
+            continue
+        kind, what = verdict
+        if kind == "lost":
+            suspects.append(v)      # timing / connection based: confirmed by a second run below
+            continue
+        local_violation(ctx, v, res, kind, what)
+    # fewer replies than requests: the same pipelines once more, alone
+    if suspects:
+        for v, res in local_replay(ctx, suspects[:40], "confirm"):
+            if res is None or res.get("err"):
+                bad += 1
+                continue
+            verdict = local_judge(v, res)
+            if verdict is not None:
+                local_violation(ctx, v, res, "count" if verdict[0] == "lost" else verdict[0], verdict[1] + " (twice)")
+            else:
+                ctx.notes.append("local %s/%s: fewer replies than requests once, not when run again" % (v["ctx"], v["payload"]))
+    ctx.cov["local_replies"] = {"vectors": len(vecs), "replayed": ran, "driver_errors": bad, "model_divergences": diverge,
+                                "contexts": len({v["ctx"] for v in vecs}), "payload_classes": len({v["payload"] for v in vecs})}
+    if pairs:
+        ctx.sample({"local_reply_vector": pairs[len(pairs) // 2][0], "result": pairs[len(pairs) // 2][1]})
+    unseen = [(s, p) for s in LOCAL_STRATA for p in LOCAL_PAYLOADS if not any(c.startswith(s) and q == p for (c, q) in seen)]
+    if not ctx.violations and (bad > len(vecs) * 0.02 or unseen):
+        raise kit.Inconclusive("c01-local unhealthy: %d vectors, %d replayed, %d driver errors, strata not exercised: %s" % (len(vecs), ran, bad, unseen[:6]))
+
+
+def local_violation(ctx, v, res, kind, what):
+    sig = ("reply-count/" if kind == "count" else "reply-mismatch/") + v["ctx"]
+    ctx.violation(sig, "%s, payload class %s, %s form, %s processor, %d forwarded request(s) ahead: %s"
+                  % (v["ctx"], v["payload"], v["form"], v["proxy"], v["pre"], what), {"vector": v, "result": res})
